@@ -14,6 +14,8 @@ use std::task::{Context, Poll};
 pub enum Rop {
     Give(usize),
     Fail,
+    /// an error of the given kind (the library must treat every kind alike: no retry, no terminator)
+    FailKind(ErrorKind),
 }
 pub struct ScriptReader {
     pub data: Vec<u8>,
@@ -42,6 +44,7 @@ impl AsyncRead for ScriptReader {
             None => buf.len().min(remaining),
             Some(Rop::Give(k)) => k.min(buf.len()).min(remaining),
             Some(Rop::Fail) => return Poll::Ready(Err(Error::new(ErrorKind::Other, "scripted read error"))),
+            Some(Rop::FailKind(k)) => return Poll::Ready(Err(Error::new(k, "scripted read error"))),
         };
         let pos = self.pos;
         buf[..n].copy_from_slice(&self.data[pos..pos + n]);
@@ -54,6 +57,7 @@ impl AsyncRead for ScriptReader {
 pub enum Wop {
     Accept(usize),
     Fail,
+    FailKind(ErrorKind),
 }
 pub struct ScriptWriter {
     pub out: Vec<u8>,
@@ -89,6 +93,7 @@ impl AsyncWrite for ScriptWriter {
             None => buf.len().min(cap),
             Some(Wop::Accept(k)) => k.min(buf.len()).min(cap),
             Some(Wop::Fail) => return Poll::Ready(Err(Error::new(ErrorKind::BrokenPipe, "scripted write error"))),
+            Some(Wop::FailKind(k)) => return Poll::Ready(Err(Error::new(k, "scripted write error"))),
         };
         self.out.extend_from_slice(&buf[..n]);
         if let Some(b) = self.budget.as_mut() {
@@ -196,7 +201,12 @@ pub fn parse_rsched(t: &str) -> Vec<Rop> {
     t[2..]
         .split(',')
         .filter(|s| !s.is_empty())
-        .map(|s| if s == "f" { Rop::Fail } else { Rop::Give(s.parse().unwrap()) })
+        .map(|s| match s {
+            "f" => Rop::Fail,
+            "i" => Rop::FailKind(ErrorKind::Interrupted),
+            "t" => Rop::FailKind(ErrorKind::TimedOut),
+            _ => Rop::Give(s.parse().unwrap()),
+        })
         .collect()
 }
 /// "w:5,f,0"
@@ -204,7 +214,12 @@ pub fn parse_wsched(t: &str) -> Vec<Wop> {
     t[2..]
         .split(',')
         .filter(|s| !s.is_empty())
-        .map(|s| if s == "f" { Wop::Fail } else { Wop::Accept(s.parse().unwrap()) })
+        .map(|s| match s {
+            "f" => Wop::Fail,
+            "i" => Wop::FailKind(ErrorKind::Interrupted),
+            "t" => Wop::FailKind(ErrorKind::TimedOut),
+            _ => Wop::Accept(s.parse().unwrap()),
+        })
         .collect()
 }
 pub fn parse_budget(t: &str) -> Option<u64> {
